@@ -22,7 +22,7 @@ import ast
 
 from ..formula import extract, same, same_effects, spec
 from ..model import AnalysisError
-from ..termflow import Poly, Unsupported, show
+from ..termflow import ADict, AList, Poly, Unsupported, show
 from ._treespec_src import REFERENCE
 
 REFRESH = {"_update_path_to_root", "update", "_update_node", "update_node_from_child_r_vals"}
@@ -72,6 +72,8 @@ def _effects(ex, ignored=IGNORED, keep_log_r=False):
             continue
         if e.name == "store_attr" and isinstance(e.kwargs.get("attr"), str) and e.kwargs["attr"].startswith("__"):
             continue
+        if e.name == "store_sub" and e.args and isinstance(e.args[0], (ADict, AList)):
+            continue  # filling a container created in this function: visible only through where the container goes
         if e.name == "store_attr" and e.kwargs.get("attr") == "log_r" and not keep_log_r:
             continue  # a cache: what it must hold after an edit is decided by C06.M2 / M3 and the refresh rules
         out.append(e)
